@@ -27,6 +27,19 @@ PATHY = [{"path": 1}, {"path": ["a"]}, {"path.first": ["a", 0]}, {"xpath": True}
          {"path": ["a"], "b": 1}, [[{"path": 1}]], {"a": [{"path": 1}]}, {"\\path": 1}, {"PATH": []}, {"Path.len": ["a"]}, [{"PATH": [1]}]]
 
 
+def pathy(g, depth=2):
+    """Literal mappings / lists whose keys look like path specs, nested in one another."""
+    k = g.r.random()
+    if depth <= 0 or k < 0.25:
+        return g.r.choice([1, "a", ["a"], ["a", 0], [1], True, None, [], {}])
+    if k < 0.4:
+        return [pathy(g, depth - 1) for _ in range(g.r.randint(1, 2))]
+    d = {}
+    for _ in range(g.r.randint(1, 2)):
+        d[g.r.choice(["path", "path", "path.first", "path.len", "xpath", "my_path", "\\path", "a", "b"])] = pathy(g, depth - 1)
+    return d
+
+
 def jsonable(a):
     if isinstance(a, PathT) or isinstance(a, type):
         return True
@@ -95,9 +108,11 @@ def run(tier, seed, model_ok, spec_ok, replay=None):
             if l.args and k < 0.12 and "DataType" not in l.cls and "is_instance" not in l.method:
                 l.args[g.r.randrange(len(l.args))] = normalise_path(limit_parts(pg.path(doc, max_len=2, mods_p=0.4)))
             elif l.args and k < 0.22 and l.method in ("equal_to", "not_equal_to", "in_", "not_in", "eq") and "DataType" not in l.cls:
-                l.args[0] = copy.deepcopy(g.r.choice(PATHY))
+                l.args[0] = copy.deepcopy(g.r.choice(PATHY)) if g.r.random() < 0.5 else pathy(g, 3)
             if l.method == "items_contain" and g.r.random() < 0.3:
-                l.kwargs[g.r.choice(["path", "xpath", "path.len", "a"])] = g.scalar() if g.r.random() < 0.5 else [1]
+                kk = g.r.random()
+                l.kwargs[g.r.choice(["path", "xpath", "path.len", "a", "my_path"])] = \
+                    g.scalar() if kk < 0.4 else ([1] if kk < 0.6 else pathy(g, 2))
             if not all(jsonable(a) for a in list(l.args) + list(l.kwargs.values())):
                 ok = False
         for l in nested_leaves(t):
